@@ -3,6 +3,9 @@
 package zzinv
 
 import (
+	"errors"
+
+	sdkerrors "github.com/cosmos/cosmos-sdk/types/errors"
 	sdk "github.com/cosmos/cosmos-sdk/types"
 
 	basketapi "github.com/regen-network/regen-ledger/api/v2/regen/ecocredit/basket/v1"
@@ -218,4 +221,24 @@ func BalanceBefore(a, b *basketapi.BasketBalance) bool {
 	}
 	sameTime := zz.And(as == bs, an == bn)
 	return zz.Or(as < bs, zz.Or(zz.And(as == bs, an < bn), zz.And(sameTime, zz.StrLess(a.BatchDenom, b.BatchDenom))))
+}
+
+
+// IsFeeError: the failure is one of the three ways a creation fee makes a message fail
+// (insufficient offer, insufficient funds, coins rejected by the bank module).
+func IsFeeError(err error) bool {
+	return errors.Is(err, sdkerrors.ErrInsufficientFee) || errors.Is(err, sdkerrors.ErrInsufficientFunds) || errors.Is(err, sdkerrors.ErrInvalidCoins)
+}
+
+// CheckFeeNeverDisables (C18): whatever fee value the state validators accept, a creation
+// whose offer covers the fee in the fee denom, from an account that holds the fee, does not
+// fail because of the fee. what names the message; the zero fee is a separate obligation.
+func CheckFeeNeverDisables(what string, err error, feeSet bool, feeAmt zz.Q, offered bool, sameDenom bool, offer zz.Q, balance zz.Q) {
+	if err == nil || !feeSet {
+		return
+	}
+	covered := zz.And(zz.And(offered, sameDenom), zz.And(zz.QLe(feeAmt, offer), zz.QLe(feeAmt, balance)))
+	feeErr := IsFeeError(err)
+	zz.Assert(zz.Implies(zz.And(covered, zz.QLt(q0(), feeAmt)), !feeErr), "C18 "+what+" does not fail on a positive fee that is offered and funded")
+	zz.Assert(zz.Implies(zz.And(covered, zz.QEq(q0(), feeAmt)), !feeErr), "C18 "+what+" does not fail on the fee when the offer covers it [zero fee accepted by the state validator]")
 }
